@@ -194,6 +194,10 @@ def measurement_forwarding(ctx):
                 if p_ != fp:
                     bad.append(f"self._name lands on parameter `{p_}`, not the filter `{fp}`")
             elif m.name == "update_all" and p_ == "query":
+                if isinstance(a, ast.Name):
+                    vals_ = assignments_to(m, a.id)
+                    if len(vals_) == 1:
+                        a = vals_[0]
                 if not norm(a).endswith(".noop()"):
                     bad.append(f"update_all passes `{norm(a)}` as the query, expected an all-true noop query")
                 elif "MeasurementQuery" not in norm(a):
@@ -221,7 +225,25 @@ def handle_filters_by_name(ctx):
         if m is None:
             raise AnalysisError("C10.R3", f"Measurement.{name} not found")
         loops = storage_loops(ctx, m)
-        if not loops:
+        comps = []
+        storages_ = set(ctx.prog.subclasses("Storage"))
+        for n in walk_local(m.node):
+            if isinstance(n, (ast.GeneratorExp, ast.ListComp)) and len(n.generators) == 1 \
+                    and ctx.res.type_of(n.generators[0].iter, m) in storages_:
+                comps.append(n)
+        for cpr in comps:
+            gen = cpr.generators[0]
+            item_ = norm(gen.target)
+            dm_ = f"self._db._storage._deserialize_measurement({item_})"
+            conds = {norm(c) for c in gen.ifs}
+            ok_ = any(c in conds for c in (f"{dm_} == self._name", f"{dm_} == self.name", f"self._name == {dm_}",
+                                            f"self.name == {dm_}"))
+            extra_ = len(conds) > 1
+            yield Ob("C10.R3", ["C10", "C07"], f"{m.qual} | scan filter (comprehension)", ok_ and not extra_,
+                     "rows used only when their measurement equals the handle's name" if ok_ and not extra_ else
+                     f"comprehension conditions {sorted(conds)} are not exactly `row's measurement == self._name`",
+                     ctx.prog.loc(cpr))
+        if not loops and not comps:
             raise AnalysisError("C10.R3", f"Measurement.{name}: no scan loop")
         for lp in loops:
             pos, item = loop_vars(lp)
@@ -259,7 +281,8 @@ def handle_filters_by_name(ctx):
     if al is None:
         raise AnalysisError("C10.R3", "Measurement.all not found")
     src = [n for n in walk_local(al.node) if isinstance(n, ast.Call) and norm(n) in ("list(iter(self))", "list(self)")]
-    comp = [n for n in walk_local(al.node) if isinstance(n, ast.ListComp) and norm(n.generators[0].iter) == "self"]
+    comp = [n for n in walk_local(al.node) if isinstance(n, ast.ListComp) and norm(n.generators[0].iter) in ("self", "iter(self)")
+            and not n.generators[0].ifs and norm(n.elt) == norm(n.generators[0].target)]
     ok = bool(src or comp)
     yield Ob("C10.R3", ["C10", "C07"], f"{al.qual} | built from the filtered iterator", ok,
              "all() collects iter(self)" if ok else "all() does not collect the handle's own iterator", al.loc())
@@ -297,7 +320,7 @@ def handles_are_stateless(ctx):
              "handle is not constructed as Measurement(name, self)", dm.loc())
 
 
-@rule("C10.R5", ["C10"], min_instances=12, design="3.10")
+@rule("C10.R5", ["C10"], min_instances=1, design="3.10")
 def filter_presence_tests(ctx):
     """The measurement filter is tested for presence with `is None`, not by truthiness ("" is a valid measurement name)."""
     from .scan import filtered_methods
@@ -308,6 +331,8 @@ def filter_presence_tests(ctx):
             ann = m.param_annotation("measurement")
             if ann is not None and "Optional[str]" in norm(ann):
                 fms.append((m, "measurement"))
+    offenders = []
+    n_funcs = 0
     for f, fp in fms:
         sites = []
         for n in walk_local(f.node):
@@ -323,9 +348,15 @@ def filter_presence_tests(ctx):
                         isinstance(par, ast.UnaryOp) and isinstance(par.op, ast.Not))
                     if truthy:
                         sites.append(n)
-        seen += 1
-        ok = not sites
-        yield Ob("C10.R5", ["C10"], f"{f.qual} | presence test of `{fp}`", ok,
-                 "filter presence decided by `is None`" if ok else
-                 f"{len(sites)} truthiness test(s) of `{fp}`: the handle for the measurement \"\" is treated as "
-                 f"`no filter` and sees every point", f.loc(), {"sites": [s.lineno for s in sites]})
+        n_funcs += 1
+        if sites:
+            offenders.append(f"{f.qual}({len(sites)})")
+    if n_funcs < 12:
+        raise AnalysisError("C10.R5", f"expected >=12 functions with a measurement filter, found {n_funcs}")
+    # one construct: the failing input is the measurement name "" wherever the filter is tested
+    yield Ob("C10.R5", ["C10"], "measurement filter | presence decided by truthiness", not offenders,
+             "filter presence is decided by `is None` everywhere" if not offenders else
+             f"the filter parameter is tested by truthiness in {len(offenders)} function(s) "
+             f"({', '.join(offenders[:6])}{', ...' if len(offenders) > 6 else ''}): the handle for the measurement \"\" "
+             f"is treated as `no filter` and sees every point", "tinyflux/database.py:0",
+             {"functions": offenders})
